@@ -33,7 +33,9 @@ PROPS['C02'] = {
     'bounds': 'count 0..255 is the whole operand domain; reference loop unwound 257 times with unwinding assertions; '
               'values, flag word, registers, memory unconstrained',
     'outside': 'parser driver / lexer (validated natively)',
-    'backends': [(r'^c02_(byte|word)_(sal|shr|sar|rol|ror|rcl|rcr)$', ['sat', 'z3'])],
+    'backends': [(r'^c02_(byte|word)_(sal|shr|sar|rol|ror|rcl|rcr)$', ['sat', 'z3']), (r'^c02_', ['z3', 'cvc5', 'sat-arrays']),
+                 (r'_(rr|ri|rc)(8|16)$', ['sat', ('cvc5', 'z3')]), (r'.*', [('cvc5', 'z3'), 'sat-arrays'])],
+    'timeout': {'quick': 600, 'thorough': 1800},
     'assumptions': ['OF is compared only for count = 1 and AF never (architecturally undefined)'],
     'level_text': 'bounded model checking; the bound (256 loop iterations of the reference) covers the complete count '
                   'domain, so within the stated trusted base every (value, count, carry-in) is decided',
@@ -64,6 +66,18 @@ PROPS['C04'] = {
     'level_text': 'bounded model checking without a bound: the returned address is compared with the architectural '
                   'formula for all 2^16 values of every register involved, which is where offset and 1 MiB wrap-arounds live',
     'level_note': 'trusted: Kani/CBMC/solver soundness; LEA with a non-DS segment is a known finding',
+}
+PROPS['C05'] = {
+    'explanation': 'the 22 MOV, 6 XCHG, 4 PUSH, 3 POP productions and PUSHF/POPF/LAHF/SAHF/XLAT, against dst := src / swap / '
+                   'stack-discipline oracles, plus PUSH x; POP y and a 4-step LIFO history from an arbitrary SS:SP',
+    'bounds': 'each production from an arbitrary state (the inductive step of any stack history); histories of length 2 and 4',
+    'outside': 'memory operands of PUSH/POP that overlap the stack cells being transferred; PUSH SP / POP SP accept both documented behaviours; the assembler side of push/pop is C10/C11',
+    'backends': [(r'_(rr8|rr16|ri8|ri16|sr|rs)$', ['sat', ('cvc5', 'z3')]), (r'pair|lifo', [('cvc5', 'z3'), 'sat-arrays']), (r'.*', [('cvc5', 'z3'), 'sat-arrays'])],
+    'timeout': {'quick': 600, 'thorough': 1800},
+    'assumptions': ['the physical address of a memory operand is an arbitrary symbolic value (C04 decides that it is the right one)'],
+    'level_text': 'bounded model checking: every production is decided for all register, flag, address and memory contents '
+                  '(loop-free), including SP = 0/1/0xFFFF and SS:SP at the top of the 1 MiB space',
+    'level_note': 'trusted: Kani/CBMC/solver soundness; reduction order of the LR parser validated natively',
 }
 
 NOT_APPLICABLE = {
